@@ -95,11 +95,15 @@ def instantiate(kinds, dialect="standard"):
       lines.append(T(["H"] + vn + [tag]))
     elif kind == "S1":
       f = ["S", s1[k], "*"]
+      if k >= 1 and not rgfa:
+        f.append("xx:Z:t")      # syntax sniffing has to skip the tags
       if rgfa:
         f += ["SN:Z:chr1", "SO:i:{}".format(10 * k), "SR:i:0"]
       lines.append(T(f))
     elif kind == "S2":
       f = ["S", s2[k], "4", "*"]
+      if k >= 1 and not rgfa:
+        f.append("xx:Z:t")
       if rgfa:
         f += ["SN:Z:chr1", "SO:i:{}".format(100 + 10 * k), "SR:i:0"]
       lines.append(T(f))
